@@ -63,8 +63,11 @@ def key_of(case, f):
     return f"C06/{case.cls_name}.{m}/{f['kind']}"
 
 
-def run_case(ctx, case, seed, observed, mode=None, tie=False, reuse=None):
-    if case.family in ("pool", "pool_ma"):
+def run_case(ctx, case, seed, observed, mode=None, tie=False, reuse=None, inst=None):
+    if inst is not None:
+        findings, info = oracles.repro_pool_instance(case, mode, seed, all_labeled=(inst == "all-labeled"))
+        ctx.count("random_state_instance_" + inst + ("_skipped" if str(info.get("raised", "")).startswith("Skip") else ""))
+    elif case.family in ("pool", "pool_ma"):
         findings, info = oracles.repro_pool(case, mode, seed, tie_data=tie)
     elif case.family == "stream":
         findings, info = oracles.repro_stream(case, seed)
@@ -75,7 +78,7 @@ def run_case(ctx, case, seed, observed, mode=None, tie=False, reuse=None):
     else:
         findings, info = oracles.repro_estimator(case, seed)
     ok = "raised" not in info
-    ctx.case((case.key, mode, seed, tie, reuse), ok, sample=dict(case=case.key, mode=mode, seed=seed, tied=tie, reuse=reuse, findings=[f["kind"] for f in findings]))
+    ctx.case((case.key, mode, seed, tie, reuse, inst), ok, sample=dict(case=case.key, mode=mode, seed=seed, tied=tie, reuse=reuse, random_state_instance=inst, findings=[f["kind"] for f in findings]))
     if reuse is not None:
         ctx.count(f"reused_object_vs_twin_tie{reuse}")
     ctx.count("family_" + case.family)
@@ -89,7 +92,7 @@ def run_case(ctx, case, seed, observed, mode=None, tie=False, reuse=None):
     for f in findings:
         observed.setdefault(case.cls_name, set()).add(f["kind"])
         ctx.violate(key_of(case, f), f"{case.cls_name} [{case.config}{', candidates=' + mode if mode else ''}{', tied data' if tie else ''}]: {f['what']}",
-                    dict(case=case.key, mode=mode, seed=seed, tie=tie, reuse=reuse, finding=f["kind"]))
+                    dict(case=case.key, mode=mode, seed=seed, tie=tie, reuse=reuse, inst=inst, finding=f["kind"]))
 
 
 def correspond(ctx):
@@ -108,6 +111,11 @@ def correspond(ctx):
                 modes = case.cand_modes if (ctx.thorough or lead) else (case.cand_modes[(i + ctx.seed) % len(case.cand_modes)],)
                 for mode in modes:
                     run_case(ctx, case, seed, observed, mode=mode)
+                # random_state as a RandomState instance: plain pool, and every label revealed + explicit candidates
+                # (smallest per-call seed multiplier)
+                run_case(ctx, case, seed, observed, mode=modes[0], inst="plain")
+                for mode in [m for m in case.cand_modes if m != "none"][:1 if not ctx.thorough else 2]:
+                    run_case(ctx, case, seed, observed, mode=mode, inst="all-labeled")
                 if lead:
                     for mode in case.cand_modes[:2]:
                         run_case(ctx, case, seed, observed, mode=mode, tie=True)
@@ -160,6 +168,9 @@ def search(ctx):
                 for mode in case.cand_modes:
                     run_case(ctx, case, seed, observed, mode=mode)
                     run_case(ctx, case, seed, observed, mode=mode, tie=True)
+                    run_case(ctx, case, seed, observed, mode=mode, inst="plain")
+                    if mode != "none":
+                        run_case(ctx, case, seed, observed, mode=mode, inst="all-labeled")
             else:
                 run_case(ctx, case, seed, observed)
             if time.time() - t0 > (600 if ctx.thorough else 150):
@@ -175,7 +186,7 @@ def replay(payload):
         print("unknown case", r.get("case"))
         return 2
     ctx = vlib.Ctx(PROP, "quick", 0)
-    run_case(ctx, case, r["seed"], {}, mode=r.get("mode"), tie=r.get("tie", False), reuse=r.get("reuse"))
+    run_case(ctx, case, r["seed"], {}, mode=r.get("mode"), tie=r.get("tie", False), reuse=r.get("reuse"), inst=r.get("inst"))
     for v in ctx.violations:
         print("REPRODUCED:", v["key"], "-", v["what"])
     if not ctx.violations:
